@@ -513,6 +513,26 @@ def run(ctx: Any, prog: Program) -> None:
     for name, tup in tup_of.items():
         ctx.check('C14.X4', arity.get(tup) == value_count(structs[name]), dmx, defined[f'_struct_{name}'], f'{name}: `{structs[name]}` has {value_count(structs[name])} slots but {tup} takes {arity.get(tup)} values',
                   func='<module>', text=f'{name} tuple arity')
+    # fixed-point time: same scale both ways, sign-symmetric rounding to nearest
+    tw, tr = dmx.func('_conv_time_to_binary'), dmx.func('_conv_binary_to_time')
+    scales_w = [n.right.value for n in ast.walk(tw) if isinstance(n, ast.BinOp) and isinstance(n.op, ast.Mult) and isinstance(n.right, ast.Constant)]
+    scales_r = [n.right.value for n in ast.walk(tr) if isinstance(n, ast.BinOp) and isinstance(n.op, ast.Div) and isinstance(n.right, ast.Constant)]
+    if len(scales_w) != 1 or len(scales_r) != 1:
+        raise AnalysisError('time converters: fixed-point scale not found')
+    ctx.check('C14.X4', scales_w == scales_r, dmx, tw, f'time is multiplied by {scales_w[0]} when written but divided by {scales_r[0]} when read', func='_conv_time_to_binary', text='time scale agrees')
+    packs = [c for c in ast.walk(tw) if isinstance(c, ast.Call) and isinstance(c.func, ast.Attribute) and c.func.attr == 'pack']
+    if len(packs) != 1 or len(packs[0].args) != 1:
+        raise AnalysisError('_conv_time_to_binary: pack call not found')
+    q = packs[0].args[0]
+    if isinstance(q, ast.Call) and dotted(q.func) == 'int' and len(q.args) == 1 and isinstance(q.args[0], ast.Call) and dotted(q.args[0].func) == 'round':
+        q = q.args[0]
+    nearest = isinstance(q, ast.Call) and dotted(q.func) == 'round' and len(q.args) == 1
+    floor_half = isinstance(q, ast.Call) and dotted(q.func) in ('math.floor', 'floor') and isinstance(q.args[0], ast.BinOp) and isinstance(q.args[0].op, ast.Add) \
+        and isinstance(q.args[0].right, ast.Constant) and q.args[0].right.value == 0.5
+    if not (nearest or floor_half) and not (isinstance(q, ast.Call) and dotted(q.func) in ('int', 'math.trunc', 'math.floor', 'math.ceil')):
+        raise AnalysisError(f'_conv_time_to_binary: quantiser `{ast.unparse(q)}` is not an enumerated rounding idiom')
+    ctx.check('C14.X4', nearest or floor_half, dmx, packs[0], f'`{ast.unparse(q)}` does not round to the nearest tick for every sign (int() truncates toward zero: -1.0 s becomes -9999 ticks): '
+              'times that are exact tick multiples must survive', func='_conv_time_to_binary', text='time quantiser rounds to nearest for both signs')
     # matrix cell positions
     def cells_written(fn: ast.AST) -> Dict[str, int]:
         out: Dict[str, int] = {}
@@ -664,6 +684,15 @@ def run(ctx: Any, prog: Program) -> None:
     rset = {e.value for e in reserved[0].comparators[0].elts} if reserved else set()
     special = {n.comparators[0].value for n in ast.walk(tk) if isinstance(n, ast.Compare) and dotted(n.left) == 'attr.name' and isinstance(n.comparators[0], ast.Constant)}
     ctx.check('C14.X8', rset == special and bool(rset), dmx, fk, f'from_kv1 reserves {sorted(rset)} but to_kv1 treats {sorted(special)} specially', func='Element.from_kv1', text='reserved names agree')
+    # Element keys are case-insensitive (Element.__setitem__ folds), so reserved / duplicate tests must use the folded Keyvalues.name
+    kvm = prog.module('keyvalues').methods('Keyvalues')
+    folded_prop = 'name' in kvm and '_folded_name' in ast.unparse(kvm['name'])
+    tests = [n for n in ast.walk(fk) if isinstance(n, ast.Compare) and isinstance(n.ops[0], (ast.In, ast.NotIn)) and isinstance(n.left, ast.Attribute) and dotted(n.left.value) == 'child']
+    if len(tests) < 2 or not folded_prop:
+        raise AnalysisError('from_kv1: reserved-name / duplicate membership tests not found')
+    for t in tests:
+        ctx.check('C14.X8', t.left.attr == 'name', dmx, t, f'`{ast.unparse(t)}` tests the original spelling: Element attribute keys are case-insensitive, so a leaf spelt "Name" is inlined over the element\'s own name attribute',
+                  func='Element.from_kv1', text=f'membership test on folded name: {ast.unparse(t.comparators[0])[:30]}')
     ok = "elem['subkeys'] = subkeys = Attribute.array('subkeys', ValueType.ELEMENT)" in fsrc and 'subkeys.iter_elem()' in tsrc
     ctx.check('C14.X8', ok, dmx, fk, 'nested blocks travel in the `subkeys` element array', func='Element.from_kv1', text='subkeys array')
 
@@ -689,6 +718,9 @@ MUTANTS: List[Dict[str, Any]] = [
     {'id': 'stub_no_uuid', 'file': 'dmx.py', 'find': "                                child_elem = stubs[uuid] = StubElement.stub(uuid)", 'replace': "                                child_elem = stubs[uuid] = StubElement.stub()", 'expect': 'C14.X6'},
     {'id': 'count_by_folded_key', 'file': 'dmx.py', 'find': "            attr_count = sum(1 for attr in elem.values() if attr.name != 'name')\n", 'replace': "            attr_count = len(elem)\n            if 'name' in elem._members:\n                attr_count -= 1\n", 'expect': 'C14.X7'},
     {'id': 'kv1_reserved_set', 'file': 'dmx.py', 'find': "                if child.name in {'name', 'subkeys'}:", 'replace': "                if child.name in {'name'}:", 'expect': 'C14.X8'},
+    {'id': 'kv1_reserved_real_name', 'file': 'dmx.py', 'find': "                if child.name in {'name', 'subkeys'}:", 'replace': "                if child.real_name in {'name', 'subkeys'}:", 'expect': 'C14.X8'},
+    {'id': 'time_trunc', 'file': 'dmx.py', 'find': "    return _struct_time.pack(round(tim.value * 10000.0))", 'replace': "    return _struct_time.pack(int(tim.value * 10000.0 + 0.5))", 'expect': 'C14.X4'},
+    {'id': 'time_scale', 'file': 'dmx.py', 'find': "    return Time(num / 10000.0)", 'replace': "    return Time(num / 1000.0)", 'expect': 'C14.X4'},
     {'id': 'kv1_leaf_type', 'file': 'dmx.py', 'find': "        if self.type == NAME_KV1_LEAF:\n            return Keyvalues(self.name, self['value'].val_str)", 'replace': "        if self.type == NAME_KV1:\n            return Keyvalues(self.name, self['value'].val_str)", 'expect': 'C14.X8'},
 ]
 MUTANTS = [m for m in MUTANTS if not m.get('skip')]
